@@ -147,6 +147,10 @@ SPECS = [
     dict(name="smc_loop_body", py="samplers/smc/base.py:SMCSampler.sample", mode="smcloop", part="body"),
     dict(name="smc_epilogue", py="samplers/smc/base.py:SMCSampler.sample", mode="smcloop", part="epilogue"),
     dict(name="smc_driver", py="samplers/smc/base.py:SMCSampler.sample", mode="smcloop", part="driver"),
+    # the checkpoint-file blocks of fit / sample_posterior (fifth vocabulary: file2lean.py)
+    dict(name="fit_file_block", py="aspire.py:Aspire.fit", mode="file", part="fit"),
+    dict(name="sample_pre_block", py="aspire.py:Aspire.sample_posterior", mode="file", part="sample_pre"),
+    dict(name="sample_post_block", py="aspire.py:Aspire.sample_posterior", mode="file", part="sample_post"),
     # the context managers (fourth vocabulary: ctx2lean.py)
     dict(name="pool_enter", py="utils.py:PoolHandler.__enter__", mode="ctx", part="pool_enter"),
     dict(name="pool_exit", py="utils.py:PoolHandler.__exit__", mode="ctx", part="pool_exit"),
@@ -168,6 +172,7 @@ GROUPS = {
     "SrcFlows": ([], ["zuko_log_prob", "zuko_sample_and_log_prob", "flowjax_log_prob", "flowjax_sample_and_log_prob"]),
     "SrcDump": ([], ["dump_pickle_to_hdf"]),
     "SrcLoop": ([], ["should_checkpoint", "loop_exit", "init_min_step", "resume_loop_flag", "final_evidence"]),
+    "SrcFile": (["FileOps"], ["fit_file_block", "sample_pre_block", "sample_post_block"]),
     "SrcCtx": (["CtxOps"], ["pool_enter", "pool_exit", "auto_enter", "auto_finally"]),
     "SrcSmcLoop": (["LoopOps"], ["smc_maybe_checkpoint", "smc_loop_body", "smc_epilogue", "smc_driver"]),
 }
